@@ -317,4 +317,49 @@ PROPS["C09"] = {
     "level_note": "Trusted: Lean kernel, Spec/Sha1.lean, the httphead and bufio models, harness. Chunk/buffer independence is C11.",
 }
 
+PROPS["C10"] = {
+    "lean": ["WsVerif.Props.C10", "WsVerif.Bridge.C10"],
+    "rule": "ws.Dialer.Upgrade against a scripted server over a chunked transport (chunk sizes 0/1/7/16/33, buffer sizes 16/64/default): "
+            "30 status-line forms (versions 1.0/1.2/1.10/2.0/01.1, status tokens '0101', '0:1', '10;', '1:1', ':1', beyond 2^64, '1e2', '+101', "
+            "non-ASCII digits, 4- and 2-digit codes, missing reason/space); each of Upgrade/Connection/Sec-WebSocket-Accept absent / 8 value "
+            "variants (case, blanks, token lists, wrong or truncated accept, accept for another key) / duplicated good-bad and bad-good; header "
+            "names canonical/lower/upper, LF and CRLF, malformed lines, reordering, OnHeader rejecting; 3 subprotocol configurations x 10 values "
+            "(+ two-header cases: requested-then-unrequested, unrequested-then-requested, two requested); 4 extension offers x 13 response "
+            "values (outside the offer, changed parameters, quoted strings, malformed); 18 URL forms (ports, IPv6 literals, percent-encoded "
+            "paths, queries, userinfo, empty path) x 7 request-side configurations (Host override, protocols, extensions with quoting, extra "
+            "headers); trailing post-handshake bytes of 0..5000 bytes x chunkings that split exactly at / one past the head; responses cut at "
+            "every offset (EOF and read error); random sampling (300 quick / 20000 thorough); ws.Dialer.Dial with a recording NetDial/TLSClient "
+            "for 18 URLs (default ports, explicit ports, IPv6, other schemes, userinfo).",
+    "exhaustive_families": [],
+    "trusted_base": PROPS["C09"]["trusted_base"][:2] + [
+        "Model/Dialer.lean mirrors dialer.go and httpWriteUpgradeRequest by hand; tied by exact correspondence (error identity, returned "
+        "Handshake, every request byte, every byte readable afterwards, whether a buffer is returned) and by Bridge.C10 (header names, "
+        "headerSeen bits, sizes, separators, GUID and the source-order list of conditions of Dialer.Upgrade, matchSelectedExtensions, "
+        "httpParseResponseLine, hostport, httpWriteUpgradeRequest regenerated from the source)",
+        "inputs of the model that come from outside gobwas/ws: the nonce drawn by math/rand (reported by the harness; the oracle checks it is "
+        "24 base64 characters of 16 bytes and differs from the previous dial), net/url's RequestURI() and Host (reported; the oracle "
+        "recomputes both from the raw URL for URLs in a plain subset)",
+        "the independent oracle (Driver/C10.lean: judgeDial) reads request and response with its own line splitter and decides the request "
+        "shape, acceptance, subprotocol membership, extension origin and parameters, and byte preservation without the model",
+        "Proofs/Bufio.lean: readLine conserves bytes (kernel-checked) - used for `rest_preserved`",
+    ],
+    "assumptions": COMMON_ASSUME + [
+        "left open by the oracle: URLs with a fragment or characters net/url escapes, a trailing '?', leading zeros in the HTTP version, a "
+        "status line without the second space (RFC 7230 makes it mandatory; the code refuses it)",
+        "TLS itself (crypto/tls) is outside: only the host name handed to TLSClient and the address dialed are observed",
+        "Dial's timeout/cancellation behaviour is C20's",
+    ],
+    "level_text": "Kernel-checked for EVERY configuration, nonce and response (model of dialer.go): the request has the fixed shape and ends with "
+                  "the blank line; success implies HTTP/1.x with x>=1, a status token that is literally '101' (three digits), every header line "
+                  "acceptable, Upgrade / Connection / Sec-WebSocket-Accept all present with Accept = base64(SHA-1(nonce ++ GUID)), every "
+                  "Sec-WebSocket-Protocol value one that was requested and non-empty, the returned subprotocol the last one sent, every "
+                  "extension the server listed named in the offer and returned with the server's parameters; whatever the outcome the bytes "
+                  "still readable through the buffer and then the connection are a suffix of what the server sent (nothing lost, duplicated or "
+                  "reordered - from the kernel-checked byte conservation of readLine over bufio); the address dialed is the URL host, with the "
+                  "default port appended iff it has none. Completeness is decided by the oracle on the grammar, not proved (PARTIAL). The "
+                  "unchanged tree violated the property: F3 ('0:1' read as 101, repaired with C09), F17 (status '0101' accepted) and F18 (an "
+                  "unrequested subprotocol accepted in a second header) - found by the oracle, repaired by fix commits 2acb7ea and d76573d.",
+    "level_note": "Trusted: Lean kernel, Spec/Sha1.lean, the httphead and bufio models, net/url, math/rand, harness.",
+}
+
 NOT_APPLICABLE = {}
